@@ -4,6 +4,7 @@ separated by commas and optional white space, closed under the ", " join of `get
 the elements. Together with ReusableParseLemmas this shows that a directive written in such a list is always recognised.
 -/
 import SquidModel.Cache.ReusableParseLemmas
+import SquidModel.Base.Finite
 
 namespace SquidModel.Cache
 open SquidModel
@@ -76,9 +77,8 @@ theorem dropWhile_all (p : UInt8 → Bool) (d r : Bytes) (h : ∀ c ∈ d, p c =
     exact ih (fun c hc => h c (by simp [hc]))
 
 theorem owsComma_listDelim (c : UInt8) (h : isOwsComma c = true) : isListDelim c = true := by
-  unfold isOwsComma at h; unfold isListDelim
-  simp only [Bool.or_eq_true] at h ⊢
-  rcases h with (h | h) | h <;> simp [h]
+  have := forall_octet (fun c => !isOwsComma c || isListDelim c) (by decide +kernel) c
+  simpa [h] using this
 
 theorem ows_space (c : UInt8) (h : isOws c = true) : isSpaceC c = true := by
   unfold isOws at h; unfold isSpaceC
@@ -140,7 +140,8 @@ theorem getItem_seps (d : Bytes) (hd : ∀ c ∈ d, isOwsComma c = true) : getIt
 
 theorem getItem_comma (r : Bytes) : getItem (44 :: r) = getItem r := by
   unfold getItem
-  simp [isListDelim]
+  have h44 : isListDelim 44 = true := by decide
+  simp [h44]
 
 /-- the strings of well-formed lists and their elements -/
 inductive Renders : Bytes → List Bytes → Prop
@@ -323,26 +324,8 @@ theorem endState_plainBytes (e : Bytes) (h : ∀ c ∈ e, isPlainByte c = true) 
     exact ih (fun c hc => h c (by simp [hc]))
 
 theorem plainByte_not_delim (c : UInt8) (h : isPlainByte c = true) : isListDelim c = false ∧ isSpaceC c = false := by
-  unfold isPlainByte at h
-  simp only [Bool.and_eq_true, Bool.not_eq_true'] at h
-  refine ⟨?_, h.2⟩
-  unfold isListDelim
-  have hs := h.2
-  unfold isSpaceC at hs
-  simp only [Bool.or_eq_false_iff] at hs
-  cases h32 : c == 32 with
-  | true => simp [h32] at hs
-  | false =>
-    simp only [h.1.2, Bool.false_or]
-    cases h9 : c == 9 with
-    | true => have := eq_of_beq h9; subst this; revert hs; decide
-    | false =>
-      cases h13 : c == 13 with
-      | true => have := eq_of_beq h13; subst this; revert hs; decide
-      | false =>
-        cases h10 : c == 10 with
-        | true => have := eq_of_beq h10; subst this; revert hs; decide
-        | false => rfl
+  have := forall_octet (fun c => !isPlainByte c || (!isListDelim c && !isSpaceC c)) (by decide +kernel) c
+  simpa [h] using this
 
 /-- every non-empty string of such bytes (in particular every token, and every token=token) is a list element -/
 theorem elemOk_plain (e : Bytes) (hne : e ≠ []) (h : ∀ c ∈ e, isPlainByte c = true) : elemOk e = true := by
